@@ -163,7 +163,14 @@ getter('required_impact', [('None exactly when x is not set',
 getter('pretestfit', [('None exactly when x is not set', none_iff_x_none)])
 getter('bbtest', [('None exactly when x is not set', none_iff_x_none)])
 getter('dwtest', [('None exactly when x is not set', none_iff_x_none)])
-getter('aatest', [('None exactly when x is not set', none_iff_x_none)])
+getter('aatest', [
+    ('None exactly when x is not set', none_iff_x_none),
+    ('C09 the A/A outcome is defined when at least 3 pre-test points remain '
+     '(window >= n_test + 3)', lambda s: Implies(
+         And(Not(IsNone(s.self._x)),
+             LEN(unwrap(s.self._y).val.t) - N(s.self._par.n_test) >= 3),
+         Not(unwrap(s.result).val.items[0].none)), ('C09', 'C08')),
+])
 getter('corr_test', [('None exactly when x is not set', none_iff_x_none)])
 getter('tests_ok', [('None when x is not set',
                      lambda s: Implies(IsNone(s.self._x), IsNone(s.result)))])
